@@ -220,6 +220,12 @@ def dateparse(val: str, t: type[DateTimeT]) -> DateTimeT:
             If `val` is not a date string or does not resolve to an instance of
             the target datetime type.
     """
+    # The date parser drops the UTC offset of a time-only string ("12:00+05:30").
+    if issubclass(t, datetime.time):
+        with contextlib.suppress(ValueError):
+            aware = datetime.time.fromisoformat(val)
+            if aware.tzinfo is not None:
+                return aware  # type: ignore[return-value]
     # A signed duration ("-P1D"): parse the magnitude, then negate.
     if val.startswith("-P") and issubclass(t, datetime.timedelta):
         magnitude = dateparse(val[1:], t)
